@@ -427,6 +427,9 @@ def direct_oracle(ctx, text, kw, fail, exhaustive, big=False):
     cp = list(range(n)) if (exhaustive and n <= 12) else sorted(ctx.rng.sample(range(n), min(n, 3)))
     for k in ((1, 2, 3) if exhaustive else (ctx.rng.choice([1, 2, 3]),)):
         O.check_chain(ctx, text, kw, fail, k, cp, dispatching=ctx.rng.random() < 0.5)
+    O.check_dispatching(ctx, text, kw, fail)
+    if exhaustive or ctx.rng.random() < 0.3:
+        O.check_subroots(ctx, text, kw, fail)
     if "allow_type_system" not in kw or exhaustive:
         O.check_transforms(ctx, text, kw, fail)
 
@@ -491,7 +494,9 @@ def replay(ctx, data):
             before = len(ctx.found)
             compare(ctx, text, kw, inp["case"], out, ans)
             return len(ctx.found) == before
-        O.check_structure(ctx, text, kw, fail)
+        O.check_structure(ctx, text, kw, fail, root_pos=inp.get("root_pos"))
+        if "dispatching" in inp:
+            O.check_dispatching(ctx, text, kw, fail)
         if "edit" in inp and "chain" not in inp:
             O.check_edits(ctx, text, kw, fail, positions=[inp["pos"]])
         elif "chain" in inp:
